@@ -159,3 +159,62 @@ func checkC05Exotic(c *Ctx, n int) {
 		c.Check("collection-holds-the-elements-of-the-highest-ranked-source", false, key, in, got, fmt.Sprintf("%q (the elements of the %s and nothing else)", want, src))
 	}
 }
+
+// checkC05SharedStorage: two slice options that the program initialised FROM THE SAME SLICE (built-in defaults
+// assigned to both: one backing array).  One of them gets a value from a higher-ranked source — command line,
+// environment, default tag, ini entry; the other occurs nowhere and has no tag: it ends with what the program
+// stored, element for element.
+func checkC05SharedStorage(c *Ctx, n int) {
+	r := c.Rng
+	type optsT struct {
+		Include []string `long:"include" env:"VERIF_C05_INCLUDE" env-delim:","`
+		Watch   []string `long:"watch"`
+		Tagged  []string `long:"tagged" default:"gen" default:"api"`
+		Keep    []string `long:"keep"`
+	}
+	for i := 0; i < n; i++ {
+		builtin := make([]string, 2, 2+r.Intn(3))
+		builtin[0], builtin[1] = "src", "lib"
+		var o optsT
+		o.Include, o.Watch = builtin, builtin
+		o.Tagged, o.Keep = builtin, builtin
+		src := []string{"command line", "environment", "default tag", "ini entry", "ini entry as defaults"}[r.Intn(5)]
+		p := flags.NewParser(&o, flags.None)
+		var argv []string
+		os.Unsetenv("VERIF_C05_INCLUDE")
+		var err error
+		var pan interface{}
+		var wantInclude, wantTagged = []string{"src", "lib"}, []string{"gen", "api"}
+		switch src {
+		case "command line":
+			argv = []string{"--include", "gen", "--include=out"}[:1+2*r.Intn(2)]
+			if len(argv) == 1 {
+				argv = []string{"--include=gen"}
+				wantInclude = []string{"gen"}
+			} else {
+				wantInclude = []string{"gen", "out"}
+			}
+		case "environment":
+			os.Setenv("VERIF_C05_INCLUDE", "gen,api")
+			wantInclude = []string{"gen", "api"}
+		case "default tag":
+			// (Tagged always takes its default tags; nothing else is given)
+		case "ini entry", "ini entry as defaults":
+			ip := flags.NewIniParser(p)
+			ip.ParseAsDefaults = src == "ini entry as defaults"
+			pan = safe(func() { err = ip.Parse(strings.NewReader("[Application Options]\ninclude = gen\n")) })
+			wantInclude = []string{"gen"}
+		}
+		if pan == nil && err == nil {
+			pan = safe(func() { _, err = p.ParseArgs(argv) })
+		}
+		os.Unsetenv("VERIF_C05_INCLUDE")
+		c.R.Evaluations++
+		got := fmt.Sprintf("panic=%v err=%v include=%q tagged=%q watch=%q keep=%q", pan, err, o.Include, o.Tagged, o.Watch, o.Keep)
+		want := fmt.Sprintf("panic=<nil> err=<nil> include=%q tagged=%q watch=%q keep=%q", wantInclude, wantTagged, []string{"src", "lib"}, []string{"src", "lib"})
+		c.Distinct(fmt.Sprintf("c05shared|%s|%d|%v", src, cap(builtin), argv))
+		c.Class("c05/shared-storage: " + src)
+		in := map[string]interface{}{"declaration": "Include, Watch, Tagged, Keep []string all assigned ONE slice {src, lib} by the program; Include has an env tag, Tagged two default tags", "higher_ranked_source_for_include": src, "argv": argv, "capacity_of_the_shared_slice": cap(builtin)}
+		c.Check("an-option-that-does-not-occur-keeps-what-the-program-stored", got == want, "C05:shared-storage", in, got, want)
+	}
+}
